@@ -3,7 +3,7 @@ Engine A: each factory body is abstractly interpreted for every d in 2..6 and ev
 index (a finite parameter domain); the resulting component vector is mapped through the basis
 extracted from the conversion table (C01) and compared with the documented 0/1 diagonal matrix."""
 from astdb import AnalysisBroken
-from interp import Interp, Obj, Cell, Thrown
+from interp import Interp, Obj, Cell, Thrown, DivisionByZero
 from kernels import KernelHooks
 from gslmodel import GslHooks
 from poly import Poly, CPoly
@@ -137,6 +137,10 @@ def run(db, rep, tier):
                 except Thrown as t:
                     rep.fail('A.fact.set', site, unit.loc(t.node), 'the operator for admissible index %d' % idx, 'throw: %s' % t.what,
                              'squids::SU_vector::' + name)
+                    continue
+                except DivisionByZero as z:
+                    rep.fail('A.fact.set', site, z.where or unit.loc(db.one('SUNalg', 'squids::SU_vector::' + name, 2)), 'the operator for admissible index %d' % idx,
+                             'a component is computed by %s: it becomes NaN or infinite' % z, 'squids::SU_vector::' + name)
                     continue
                 rep.fn(f['name'])
                 res = vector_matrix(db, d, r)
